@@ -188,6 +188,7 @@ def catalogue():
          fn(i32, i32, s), fn(i32, wi, s), fn(None, vector(i32)), fn(None, array(i32, 3)), fn(i32, s, i32),
          fn(i32, cref(s), i32), fn(None, cref(vector(i32))), fn(i32, cref(i32), cref(s)),
          carray(carray(i32, 3), 2), carray(carray(i32, 4), 2), array(carray(i32, 3), 2), array(carray(i32, 4), 2), array(array(i32, 3), 2),
+         tup(carray(i32, 3)), tup(carray(i32, 4)), tup(array(i32, 3)), pair(carray(i32, 3), i32), pair(carray(i32, 4), i32), pair(array(i32, 3), i32),
          tup(vector(i32), f32), tup(array(i32, 3), f32), pair(vector(i32), f32), tup(wi, s), array(tup(i32, s), 2), vector(pair(wi, s))]
     return c
 
@@ -326,6 +327,35 @@ inline void ProtocolTwin() {
   std::array<std::int32_t, 3> out;
   (void)nop::Protocol<std::vector<std::int32_t>>::Read(&d, &out);
 }
+// MUSTCOMPILE protocol_admits_c_arrays
+inline void ProtocolCArray() {
+  std::uint8_t buffer[32];
+  nop::Serializer<nop::BufferWriter> s{buffer, sizeof(buffer)};
+  nop::Deserializer<nop::BufferReader> d{buffer, sizeof(buffer)};
+  std::int32_t in[3] = {1, 2, 3};
+  (void)nop::Protocol<std::vector<std::int32_t>>::Write(&s, in);
+  (void)nop::Protocol<std::array<std::int32_t, 3>>::Write(&s, in);
+  std::int32_t out[3];
+  (void)nop::Protocol<std::vector<std::int32_t>>::Read(&d, &out);
+  (void)nop::Protocol<std::int32_t[3]>::Read(&d, &out);
+}
+// END protocol_admits_c_arrays
+// MUSTFAIL protocol_write_rejects_c_array_of_other_extent
+inline void ProtocolBadExtentWrite() {
+  std::uint8_t buffer[32];
+  nop::Serializer<nop::BufferWriter> s{buffer, sizeof(buffer)};
+  std::int32_t in[4] = {1, 2, 3, 4};
+  (void)nop::Protocol<std::int32_t[3]>::Write(&s, in);
+}
+// END protocol_write_rejects_c_array_of_other_extent
+// MUSTFAIL protocol_read_rejects_c_array_of_other_extent
+inline void ProtocolBadExtentRead() {
+  std::uint8_t buffer[32];
+  nop::Deserializer<nop::BufferReader> d{buffer, sizeof(buffer)};
+  std::int32_t out[4];
+  (void)nop::Protocol<std::int32_t[3]>::Read(&d, &out);
+}
+// END protocol_read_rejects_c_array_of_other_extent
 // MUSTFAIL protocol_write_rejects_non_fungible
 inline void ProtocolBadWrite() {
   std::uint8_t buffer[32];
